@@ -175,4 +175,5 @@ package mimetype
 //@ func mimetype.init
 //@   ensures [C02_errmime] errMIME != nil && errMIME.mime == "application/octet-stream" && errMIME.parent == nil && errMIME.detector != nil && len(errMIME.children) == 0
 //@   ensures [C02_root] root != nil && root.mime == "application/octet-stream" && root.parent == nil && root.detector != nil
+//@   ensures [C19_zip_parent] xlsx.parent == zip && docx.parent == zip && pptx.parent == zip && epub.parent == zip && jar.parent == zip && apk.parent == zip && odt.parent == zip && ods.parent == zip && odp.parent == zip && odg.parent == zip && odf.parent == zip && odc.parent == zip && sxc.parent == zip && zip.mime == "application/zip" && zip.parent == root
 //@   ensures [C07C17_text_last] len(root.children) > 0 && root.children[len(root.children)-1].mime == "text/plain" && (forall i :: 0 <= i && i < len(root.children) - 1 ==> root.children[i].mime != "text/plain")
